@@ -26,6 +26,8 @@ func Constructs() []Construct {
 		"f[T](a)", "f[T, U](a)", "m[k]", "m[k](a)",
 		"[]byte(s)", "(*T)(p)", "chan int(c)", "g((<-chan int)(c))", "g((chan<- int)(c))", "map[string][]int(nil)", "interface{}(v)", "g(interface{ m() }(v))", "g(func(int) error(nil))",
 		"a.b(c).d[e]", "x0 + 1*y0 - z0",
+		// boundary spellings and less-travelled forms
+		"größe", "π + a", "0x1F", "1_000", "0b101", "0o17", "1e3", "'\\n'", "`raw\\n`", `"esc\t\"q\""`, "T.m", "(*T).m", "g(T.m, (*T).m)", "struct{ a, b int }{a: 1}", "g(_)", "a.b[i].c(d...)", "f(a)(b)(c)", "*&a", "-(-a)", "!(!a)", "a.(interface{ m() })", "[]struct{ a int }{{1}, {a: 2}}",
 	)
 	add("stmts",
 		"a = b", "a, b = b, a", "a := b", "a, b := f()", "a += b", "a <<= b", "a++", "a--", "ch <- v",
@@ -39,6 +41,7 @@ func Constructs() []Construct {
 		"select {\ncase <-ch:\n\ta()\ncase ch <- v:\ndefault:\n}", "select {\ncase v := <-ch:\n\t_ = v\ncase v, ok := <-ch:\n\t_, _ = v, ok\n}", "select {\n}",
 		"if c {\n\t{\n\t\ta()\n\t}\n}", "if c {\n\tvar v int\n}", "for {\n\tvar v, w = 1, 2\n\tconst c = 1\n\ttype T int\n}",
 		"a = b\nc = d", "a := f()\nb(a)\nreturn a",
+		"_ = a", "_, a = f()", "größe := a", "L:\n\tselect {\n\tcase <-ch:\n\t\tbreak L\n\t}", "switch v := a.(type) {\ncase nil:\n\t_ = v\n}", "for {\n\tselect {\n\tdefault:\n\t}\n}", "go func() {\n\tdefer a()\n}()", "if a := f(); a {\n\tgoto L\n}\nL:\n\tb()",
 	)
 	add("decl",
 		"var v int", "var v = 1", "var v int = 1", "var a, b int", "var a, b = 1, 2", "var (\n\ta = 1\n)", "var (\n\ta = 1\n\tb = 2\n)", "var ()",
@@ -50,6 +53,7 @@ func Constructs() []Construct {
 		"func f() {}", "func f(a int) {}", "func f(a, b int, c ...string) (int, error) {\n\treturn 0, nil\n}", "func f() (n int) {\n\treturn\n}",
 		"func (r T) m() {}", "func (r *T) m() {}", "func (T) m() {}", "func (r G[T]) m() {}", "func f[T any](v T) T {\n\treturn v\n}", "func f[T, U any, V ~int]() {}", "func f()",
 		"func f() {\n\ta()\n\tb()\n}",
+		"func _() {}", "func (T) _() {}", "var _ = a", "var _, b = f()", "const (\n\ta = iota\n\t_\n\tc\n)", "type T struct {\n\t_ int\n\ta int `k:\"v\"`\n}", "type größe int", "type T[P interface{ ~int | ~string }] []P", "func f[T any, PT interface{ *T }](v PT) {}", "var f = g[int]", "type T struct {\n\tG[int]\n\t*p.H[string]\n}",
 	)
 	return out
 }
